@@ -11,6 +11,7 @@ pub mod c11;
 pub mod c12;
 pub mod c13;
 pub mod c14;
+pub mod c15;
 pub mod c16;
 pub mod c17;
 pub mod c18;
@@ -30,6 +31,7 @@ pub fn lookup(id: &str) -> Option<(&'static str, Runner)> {
         "C12" => ("C12", c12::run as Runner),
         "C13" => ("C13", c13::run as Runner),
         "C14" => ("C14", c14::run as Runner),
+        "C15" => ("C15", c15::run as Runner),
         "C16" => ("C16", c16::run as Runner),
         "C17" => ("C17", c17::run as Runner),
         "C18" => ("C18", c18::run as Runner),
